@@ -20,9 +20,17 @@ use qv_harness::*;
 
 static COUNTER: AtomicUsize = AtomicUsize::new(0);
 
+/// The path as the parser holds it, minus the scratch directory — at the octet level
+/// (`Path::strip_prefix` would re-assemble the components and drop trailing `/` and `/.`).
 fn rel(base: &Path, p: &Path) -> String {
     use std::os::unix::ffi::OsStrExt;
-    hex(p.strip_prefix(base).unwrap_or(p).as_os_str().as_bytes())
+    let b = base.as_os_str().as_bytes();
+    let o = p.as_os_str().as_bytes();
+    if o.len() > b.len() && o.starts_with(b) && o[b.len()] == b'/' {
+        hex(&o[b.len() + 1..])
+    } else {
+        hex(o)
+    }
 }
 
 fn int_err(k: &IntErrorKind) -> &'static str {
